@@ -46,7 +46,7 @@ func runC19(c *Ctx) {
 	c.Rule("R19b", "policy table: bool fields of cmdapi.SkipChanges ⇔ prototypes listed in (*Diff).Options; AddOrSkip appends iff !Skipped; Skipped compares dynamic types", 4)
 	c.Rule("R19c", "every Inspector implementation (sqlite, mysql, postgres InspectRealm/InspectSchema) returns only nil+error or the result of schema.ExcludeRealm/ExcludeSchema applied with the options' Exclude patterns; the HCL/SQL state reader applies the same functions", 7)
 	c.Rule("R19d", "no dropped error while excluding: in sql/schema/exclude_oss.go an assigned error variable is read before it is assigned again on every path (repo-wide as cross-reference in the thorough tier)", 5)
-	c.Rule("R19e", "every pattern is applied to every resource: the pattern and resource loops of ExcludeRealm/excludeS/excludeObjects have no break and no non-error return, and the statement that keeps a resource (append to the result) is unconditional in the loop body", 6)
+	c.Rule("R19e", "every pattern is applied to every resource: the pattern and resource loops of ExcludeRealm/excludeS/excludeObjects have no break and no non-error return, and the statement that keeps a resource (append to the result) is unconditional in the loop body", 4)
 
 	skippable := skippableKinds(c, "R19b")
 	skipSet := map[string]bool{}
@@ -191,37 +191,47 @@ func checkSkipTable(c *Ctx, fields []string) {
 	// AddOrSkip: append iff !Skipped
 	if af := c.Func("R19b", pSchema, "DiffOptions", "AddOrSkip"); af != nil {
 		ainfo := af.Info()
-		ok := false
-		ast.Inspect(af.Decl.Body, func(m ast.Node) bool {
-			ifs, isIf := m.(*ast.IfStmt)
-			if !isIf {
+		f := newFlow(ainfo, af.Decl.Body)
+		isSkippedCall := func(e ast.Expr) bool {
+			call, ok := ast.Unparen(e).(*ast.CallExpr)
+			return ok && funcIs(calleeOf(ainfo, call), pSchema, "DiffOptions", "Skipped")
+		}
+		isAppend := func(n ast.Node) bool {
+			hit := false
+			walkShallow(n, func(k ast.Node) bool {
+				if call, ok := k.(*ast.CallExpr); ok && builtinName(ainfo, call) == "append" {
+					hit = true
+				}
 				return true
-			}
-			un, isUn := ifs.Cond.(*ast.UnaryExpr)
-			if !isUn || un.Op != token.NOT {
-				return true
-			}
-			call, isCall := un.X.(*ast.CallExpr)
-			if !isCall || !funcIs(calleeOf(ainfo, call), pSchema, "DiffOptions", "Skipped") {
-				return true
-			}
-			for _, st := range ifs.Body.List {
-				if as, isAs := st.(*ast.AssignStmt); isAs && len(as.Rhs) == 1 {
-					if ac, isC := as.Rhs[0].(*ast.CallExpr); isC && builtinName(ainfo, ac) == "append" {
-						ok = true
-					}
+			})
+			return hit
+		}
+		notSkipped := func(b *cfg.Block, si int) bool {
+			return edgeImplies(b, si, func(e ast.Expr, val bool) bool { return isSkippedCall(e) && !val })
+		}
+		// (a) no append is reachable without passing an edge that establishes !Skipped(c)
+		_, leak := f.reachEx([]point{f.entry()}, nil, isAppend, notSkipped)
+		// (b) after such an edge, the change is appended before the next test and before returning
+		var starts []point
+		for _, b := range f.G.Blocks {
+			for si, succ := range b.Succs {
+				if notSkipped(b, si) {
+					starts = append(starts, point{succ, 0})
 				}
 			}
-			return true
-		})
-		// no other append outside the guarded one
-		appends := 0
-		for _, call := range callsIn(af.Decl.Body, true) {
-			if builtinName(ainfo, call) == "append" {
-				appends++
-			}
 		}
-		c.Check("R19b", "AddOrSkip|append iff !Skipped", af.Decl.Pos(), ok && appends == 1, "AddOrSkip must append a change exactly when Skipped reports false (guarded appends found=%v, appends=%d)", ok, appends)
+		containsSkipped := func(n ast.Node) bool {
+			hit := false
+			walkShallow(n, func(k ast.Node) bool {
+				if e, ok := k.(ast.Expr); ok && isSkippedCall(e) {
+					hit = true
+				}
+				return true
+			})
+			return hit
+		}
+		_, lost := f.reach(starts, isAppend, func(n ast.Node) bool { return isReturn(n) || containsSkipped(n) }, true)
+		c.Check("R19b", "AddOrSkip|append iff !Skipped", af.Decl.Pos(), len(starts) > 0 && !leak && !lost, "AddOrSkip must append a change exactly when Skipped reports false (an append reachable without the test: %v; a change that is not skipped can be left out: %v)", leak, lost)
 	}
 	if sf := c.Func("R19b", pSchema, "DiffOptions", "Skipped"); sf != nil {
 		sinfo := sf.Info()
@@ -231,13 +241,34 @@ func checkSkipTable(c *Ctx, fields []string) {
 			if !isBin || be.Op != token.EQL {
 				return true
 			}
-			l, lok := be.X.(*ast.CallExpr)
-			r, rok := be.Y.(*ast.CallExpr)
-			if lok && rok {
-				lf, rf := calleeOf(sinfo, l), calleeOf(sinfo, r)
-				if lf != nil && rf != nil && lf.Name() == "TypeOf" && rf.Name() == "TypeOf" && lf.Pkg().Path() == "reflect" {
-					ok = true
+			isTypeOf := func(e ast.Expr) bool {
+				e = ast.Unparen(e)
+				if call, isCall := e.(*ast.CallExpr); isCall {
+					fn := calleeOf(sinfo, call)
+					return fn != nil && fn.Pkg() != nil && fn.Pkg().Path() == "reflect" && fn.Name() == "TypeOf"
 				}
+				// a local holding reflect.TypeOf(…)
+				if id, isID := e.(*ast.Ident); isID {
+					hit := false
+					ast.Inspect(sf.Decl.Body, func(k ast.Node) bool {
+						if as, isAs := k.(*ast.AssignStmt); isAs && len(as.Lhs) == len(as.Rhs) {
+							for i, l := range as.Lhs {
+								if lid, isL := l.(*ast.Ident); isL && sinfo.ObjectOf(lid) == sinfo.ObjectOf(id) {
+									if call, isCall := ast.Unparen(as.Rhs[i]).(*ast.CallExpr); isCall {
+										fn := calleeOf(sinfo, call)
+										hit = hit || fn != nil && fn.Pkg() != nil && fn.Pkg().Path() == "reflect" && fn.Name() == "TypeOf"
+									}
+								}
+							}
+						}
+						return true
+					})
+					return hit
+				}
+				return false
+			}
+			if isTypeOf(be.X) && isTypeOf(be.Y) {
+				ok = true
 			}
 			return true
 		})
